@@ -191,6 +191,17 @@ def arg_records(ck):
     D = gen.mk_digraph(4, [[1, 3], [2, 3], [3, 4]])
     B = gen.mk_bipartite(3, 3, [[1, 1], [1, 2], [2, 2], [3, 3], [3, 1]])
     for cls in (cnfgen.CNF, OPB):
+        # graphs whose name is empty or None (snapshots compare the name too)
+        for nm in ("", None):
+            Gn = gen.mk_graph(4, [[1, 2], [2, 3], [3, 4], [1, 4]]); Gn.name = nm
+            Dn = gen.mk_digraph(3, [[1, 3], [2, 3]]); Dn.name = nm
+            Bn = gen.mk_bipartite(2, 2, [[1, 1], [2, 2], [1, 2]]); Bn.name = nm
+            one("unnamed-tseitin", gsnap(Gn), lambda: cnfgen.TseitinFormula(Gn, formula_class=cls))
+            one("unnamed-evencol", gsnap(Gn), lambda: cnfgen.EvenColoringFormula(Gn, formula_class=cls))
+            one("unnamed-matching", gsnap(Gn), lambda: cnfgen.PerfectMatchingPrinciple(Gn, formula_class=cls))
+            one("unnamed-peb", gsnap(Dn), lambda: cnfgen.PebblingFormula(Dn, formula_class=cls))
+            one("unnamed-gphp", gsnap(Bn), lambda: cnfgen.GraphPigeonholePrinciple(Bn, formula_class=cls))
+            one("unnamed-subsetcard", gsnap(Bn), lambda: cnfgen.SubsetCardinalityFormula(Bn, formula_class=cls))
         for name, Gx, fn in [
             ("tseitin", G, lambda: cnfgen.TseitinFormula(G, formula_class=cls)),
             ("kcolor", G, lambda: cnfgen.GraphColoringFormula(G, 3, formula_class=cls)),
